@@ -37,8 +37,9 @@ impl GenLine {
 /// `name = <line>` followed by a use of the name
 fn with_variable(value: Line, use_kind: u8, name_pick: u8) -> (Vec<Line>, Line) {
     // two names with non-ASCII letters whose case mapping is one-to-one (case variation must not matter for them either)
-    // ... and two names spelled like zone abbreviations (a name is a name, whatever else the word could mean)
-    let names = ["total", "rent", "net amount", "bonus", "ürün", "цена нетто", "cat", "west"];
+    // ... two names spelled like zone abbreviations (a name is a name, whatever else the word could mean), and one
+    // that contains an operator character
+    let names = ["total", "rent", "net amount", "bonus", "ürün", "цена нетто", "cat", "west", "tax-rate"];
     let name = names[name_pick as usize % names.len()];
     let mut def = Line::default();
     for w in name.split(' ') {
